@@ -400,6 +400,10 @@ CxShapes(full, sd, lk) ==
      \o << EProbeA(1, <<L>>), EHCall("f", <<P1>>), EHCall("f", <<L>>), EProbeA(1, <<ESpread1(L)>>) >>
      \o << ETpl("", P1), ETpl("", A), ETpl("", L), ETpl("a", A), ETpl("a", L) >>
      \o << EUn("!", EUn("!", A)), EUn("!", EBin("===", A, L)), EUn("!", EBin("<", P1, P2)) >>
+     \* typeof comparisons and operands that "look the same"
+     \o << EBin("===", EUn("typeof", A), ELit(Str(CU("number")))), EBin("!=", EUn("typeof", P1), ELit(Str(CU("undefined")))),
+           EBin("==", EUn("typeof", A), ELit(Str(CU("object")))),
+           EBin("===", A, A), EBin("!==", OK, OK), ELog("??", A, A), ECond(A, A, P2), ELog("||", OK, OK) >>
 
 (* descriptor of one program of the family, packed in an integer: context, shape, the shape's
    literal (0: the shape has no literal slot), the context's literal (0: none) *)
